@@ -39,14 +39,15 @@ Definition res_eqb (a b : res) : bool :=
   | ROk k w, ROk k' w' =>
       list_eqb (fun x y => str_eqb (fst x) (fst y) && oval_eqb (snd x) (snd y)) k k' &&
       incl_b warning_eqb w w' && incl_b warning_eqb w' w && Nat.eqb (length w) (length w')
-  | RErr k p, RErr k' p' => (match k, k' with EConflict, EConflict | ECollide, ECollide => true | _, _ => false end) && path_eqb p p'
+  | RErr k p, RErr k' p' =>
+      (match k, k' with EConflict, EConflict | ECollide, ECollide | EInvalid, EInvalid => true | _, _ => false end) && path_eqb p p'
   | RPanic, RPanic => true
   | _, _ => false
   end.
 
-(** 0 agree + spec holds; 1 outside the modelled domain (panic on a base key that is not an identifier: C09's subject);
-    2 implementation differs from the model (spec holds); 3 spec false on the implementation's output;
-    5 the locale panicked but not at this level (bookkeeping for the driver) *)
+(** 0 agree + spec holds; 2 implementation differs from the model (spec holds); 3 spec false on the implementation's
+    output (a panic included); 5 bookkeeping for the driver: the locale's panic / InvalidKey error (which carries no key
+    path) does not belong to this level *)
 Definition check (c : case) : N :=
   let is_key := fun b => negb (mem_str b (c_bad_bases c)) in
   let cats := fun r => match r with Cardinal => c_cats_card c | Ordinal => c_cats_ord c end in
@@ -54,7 +55,12 @@ Definition check (c : case) : N :=
   if negb (list_eqb tag3_eqb (map tag3 (c_keys c)) (c_tags c)) then 2 else
   match c_impl c with
   | None => 0
-  | Some RPanic => match model with RPanic => 1 | _ => 5 end
+  | Some RPanic =>
+      (* which level panicked is not observable: the level whose pre-fix model panics takes the blame *)
+      match merge_level_panic_old is_key cats (c_path c) (c_keys c) with RPanic => 3 | _ => 5 end
+  | Some (RErr EInvalid p) =>
+      if spec_C05 is_key cats (c_path c) (c_keys c) (RErr EInvalid p)
+      then (if res_eqb (RErr EInvalid p) model then 0 else 2) else 5
   | Some impl =>
       if negb (spec_C05 is_key cats (c_path c) (c_keys c) impl) then 3
       else if negb (res_eqb impl model) then 2 else 0
